@@ -244,6 +244,16 @@ def deleteNode (t : Tbl) (k : Nat) (same : Bool) (now : Int) : Tbl × List Event
     if same then (unlink t k, [{ key := cur.key, val := cur.val, cause := getCause cur now .invalidation }])
     else (t, [])
 
+/-- InvalidateAll in single-goroutine use: every mapped node goes through deleteNode (the nodes collected by Range are all still
+    mapped), one Invalidation report each — Expiration for an entry whose deadline has passed.  (Table order here; the code
+    walks the collected nodes from the end, and C06 orders reports per key only.) -/
+def invalidateAll (t : Tbl) (now : Int) : Tbl × List Event :=
+  ([], t.map (fun p => { key := p.2.key, val := p.2.val, cause := getCause p.2 now .invalidation }))
+
+/-- the loop InvalidateAll runs: deleteNode for each collected key in turn -/
+def deleteAll (t : Tbl) (keys : List Nat) (now : Int) : Tbl × List Event :=
+  keys.foldl (fun acc k => let r := deleteNode acc.1 k true now; (r.1, acc.2 ++ r.2)) (t, [])
+
 /-- nodeToEntry as GetEntry / GetEntryQuietly return it: value, weight, the two deadlines (unreachable when the policy is
     off — the node layouts without the field answer MaxInt64, which is what newNode stores here) and the snapshot time
     (0 without any time-based policy) -/
@@ -266,5 +276,9 @@ def getEntry (c : TCfg) (t : Tbl) (k : Nat) (now : Int) : Tbl × Out :=
     else
       let n' := calcExpiresAtAfterRead c n now
       (store t k n', .entry (some (nodeToEntry c n' now)))
+
+/-- cache.isStale for the node a read found mapped (it is alive): due for refresh iff refreshing is configured and the refresh
+    deadline has been reached.  (The aliveness is read once, after the deadline: finding F16.) -/
+def isStale (c : TCfg) (n : TNode) (now : Int) : Bool := c.withRef && decide (n.ref ≤ now)
 
 end OtterVerif.Impl.Table
